@@ -60,7 +60,14 @@ def run_one(mod, ctx, case, core):
     except Exception as e:  # noqa
         where = core.innermost_repo_frame(e, ctx.repo)
         if where is None:
-            raise
+            # harness error: never a verdict.  The run goes on (other cases may still observe violations) and ends
+            # inconclusive unless it found a violation.
+            ctx.note("harness_errors")
+            if len(ctx.inconclusive) < 5:
+                ctx.inconclusive.append("harness error in case: " + traceback.format_exc()[-900:])
+            if ctx.notes["harness_errors"] > 200:
+                raise
+            return
         ctx.check("exception", False, site=where, preds={"type": type(e).__name__},
                   detail=traceback.format_exc()[-1500:], case=case)
 
